@@ -42,4 +42,24 @@ let () = main (fun u k -> match k with
     let dt = Stdlib.List.init nb (fun i -> dTi_value num u t ms nd (n i) (a0 (n i))) in
     let de = (fun j -> d.(nb - 1).(int_of_nat j)) in
     out_floats (dl @ dt @ [visc_value num u t nd (n nb) b0; kdash_value num u t ms nd (n nb) a1; sigma_value num u rho ntot t ms nd ch (n nb) de])
+  | "kappa" ->
+    (* dt nb T delta ni_limit rho ntot kdash | masses nd h DT npos nneg (nb each) | D (nb*nb)  ->  total *)
+    let dt = it () <> 0 in let nb = it () in let t = fl () in let delta = fl () in let lim = fl () in
+    let rho = fl () in let ntot = fl () in let kdash = fl () in
+    let rd1 () = arr1 (Stdlib.List.init nb (fun _ -> fl ())) in
+    let ms = rd1 () in let nd = rd1 () in let h = rd1 () in let dti = rd1 () in let npos = rd1 () in let nneg = rd1 () in
+    let d = arr2 nb (Stdlib.List.init (nb * nb) (fun _ -> fl ())) in
+    let n = nat_of_int nb in
+    let hv = hv_rescaled num rho ntot ms h in
+    let dx = dxdT_value num t delta n npos nneg in
+    out_floats [kappa_total num u dt rho ntot t lim ms nd hv dti dx d n kdash]
+  | "Qij" ->
+    (* species_i ni species_j nj l s T -> value class *)
+    let si = species () in let ni = fl () in let sj = species () in let nj = fl () in
+    let l = nat_of_int (it ()) in let s = nat_of_int (it ()) in let t = fl () in
+    let v = qij num u si ni sj nj l s t in
+    let c = (match qij_class si ni sj nj l s t with
+             | CCall (f, first) -> (match f with Qc_tag -> "Qc" | Qe_tag -> "Qe" | Qnn_tag -> "Qnn" | Qtr_tag -> "Qtr" | Qin_tag -> "Qin") ^ (if first then ":ij" else ":ji")
+             | CUnknown -> "unknown") in
+    print_endline (pf v ^ " " ^ c)
   | _ -> failwith ("unknown kernel " ^ k))
